@@ -58,16 +58,23 @@ def dist (px py qx qy : α) : α := sqrt (normSq (qx - px) (qy - py))
 def Line2.dx (l : Line2 α) : α := l.ex - l.sx
 def Line2.dy (l : Line2 α) : α := l.ey - l.sy
 
-/-- `Line2::intersects` (line2.rs:29-54): parameters `ua, ub ∈ [0,1]`, parallel ⇒ false -/
+/-- `Line2::TOLERANCE` -/
+def lineTol : α := Generated.lineTolerance.eval (fun _ => (sc0 : α))
+
+/-- `Line2::intersects` (line2.rs, after the `fix:`): lines parallel to within `TOLERANCE` relative to
+their lengths never cross; otherwise the crossing parameters `ua, ub` must lie in
+`[-TOLERANCE, 1 + TOLERANCE]` -/
 def Line2.intersects (a b : Line2 α) : Bool :=
   let ub := b.dy * a.dx - b.dx * a.dy
-  if ub == (sc0 : α) then false
+  let lengths := sqrt (powi a.dx 2 + powi a.dy 2) * sqrt (powi b.dx 2 + powi b.dy 2)
+  if fabs ub ≤ lineTol * lengths then false
   else
     let uat := b.dx * (a.sy - b.sy) - b.dy * (a.sx - b.sx)
     let ubt := a.dx * (a.sy - b.sy) - a.dy * (a.sx - b.sx)
     let ua := uat / ub
     let ub' := ubt / ub
-    decide ((sc0 : α) ≤ ua) && decide (ua ≤ (sc1 : α)) && decide ((sc0 : α) ≤ ub') && decide (ub' ≤ (sc1 : α))
+    decide (-(lineTol : α) ≤ ua) && decide (ua ≤ (sc1 : α) + lineTol) &&
+      decide (-(lineTol : α) ≤ ub') && decide (ub' ≤ (sc1 : α) + lineTol)
 
 /-- `Line2 * Transform2` (line2_ops.rs) -/
 def Line2.transform (l : Line2 α) (t : Mat3 α) : Line2 α :=
